@@ -130,6 +130,12 @@ FIXED_QUERIES = [
     ("clickhouse", "ClickHouseQuery.from_(A).select(A.a).limit_offset_by(4, 0, A.b)"),
     ("clickhouse", "ClickHouseQuery.from_(A).select(A.a).limit_by(2, A.a).limit(5).offset(1)"),
     ("clickhouse", "ClickHouseQuery.from_(C).select(C.a).where(C.a.isin(ClickHouseQuery.from_(A).select(A.a).limit_offset_by(1, 7, A.a)))"),
+    # the table to replace occurs in a join criterion only below other terms (tables_ does not look there)
+    ("generic", "Query.from_(A).join(C).on(fn.Extract('year', A.a) == C.a).select(C.b)"),
+    ("generic", "Query.from_(A).join(C).on(C.a.isin(Query.from_(E).select(E.x).where(E.x == A.b))).select(C.b)"),
+    ("generic", "Query.from_(A).join(C).on(fn.Sum(C.a).filter(A.b > 1) > an.Rank().over(A.c).orderby(A.d)).select(C.b)"),
+    ("postgresql", "PostgreSQLQuery.from_(A).join(C).on(ExistsCriterion(PostgreSQLQuery.from_(E).select(E.x).where(E.x == A.b))).select(C.b)"),
+    ("mysql", "MySQLQuery.from_(C).join(A).on(Case().when(A.a > 1, A.b).else_(0) == C.a).select(C.b)"),
     ("mssql", "MSSQLQuery.from_(A).select(A.a).top(3).orderby(A.b)"),
     ("generic", "Query.from_(A).select(A.a).orderby(A.b).limit(3).offset(2)"),
     ("mysql", "MySQLQuery.from_(A).select(A.a).for_update(nowait=True).limit(1)"),
